@@ -83,14 +83,14 @@ func (mgr *GCMgr) UpdateCollision(bkt *Bucket, ki *KeyInfo, oldPos, newPos Posit
 }
 
 func (mgr *GCMgr) UpdateHtreePos(bkt *Bucket, ki *KeyInfo, oldPos, newPos Position) {
-	// TODO: should be a api of htree to be atomic
-	meta, _, ok := bkt.htree.get(ki)
-	if !ok {
-		logger.Warnf("old key removed when updating pos bucket %d %s %#v %#v",
-			bkt.ID, ki.StringKey, meta, oldPos)
-		return
+	found, updated := bkt.htree.updatePos(ki, oldPos, newPos)
+	if !found {
+		logger.Warnf("old key removed when updating pos bucket %d %s %#v",
+			bkt.ID, ki.StringKey, oldPos)
+	} else if !updated {
+		logger.Warnf("key changed when updating pos bucket %d %s %#v, keep the newer one",
+			bkt.ID, ki.StringKey, oldPos)
 	}
-	bkt.htree.set(ki, meta, newPos)
 }
 
 func (mgr *GCMgr) BeforeBucket(bkt *Bucket, startChunkID, endChunkID int, merge bool) {
